@@ -146,10 +146,52 @@ var restrictedAlphabet = map[string]bool{"null": true, "-1": true, "\"str\"": tr
 
 func mutationsOf(doc any) []mutation { return mutationsOfA(doc, false) }
 
+// optional members the standard allows that a given shipped document may not carry: inserted with an ordinary value
+var optionalRoot = map[string]any{"id": "some-id", "title": "a title", "description": "a description", "keywords": []any{"k1", "k2"}, "uri": "http://www.opengis.net/def/tilematrixset/OGC/1.0/X",
+	"wellKnownScaleSet": "http://www.opengis.net/def/wkss/OGC/1.0/GoogleMapsCompatible", "orderedAxes": []any{"E", "N"}}
+var optionalTM = map[string]any{"title": "a title", "description": "a description", "keywords": []any{"k1"}, "cornerOfOrigin": "bottomLeft",
+	"variableMatrixWidths": []any{map[string]any{"coalesce": json.Number("2"), "minTileRow": json.Number("0"), "maxTileRow": json.Number("1")}}}
+var optionalBBox = map[string]any{"orderedAxes": []any{"E", "N"}}
+
+func insertions(doc any) []mutation {
+	var out []mutation
+	add := func(prefix jpath, obj map[string]any, opts map[string]any) {
+		keys := make([]string, 0, len(opts))
+		for k := range opts {
+			keys = append(keys, k)
+		}
+		sort.Strings(keys)
+		for _, k := range keys {
+			if _, present := obj[k]; !present {
+				out = append(out, mutation{Path: append(append(jpath{}, prefix...), k), Replace: clone(opts[k]), Name: "=insert-" + k})
+			}
+		}
+	}
+	root, ok := doc.(map[string]any)
+	if !ok {
+		return nil
+	}
+	add(nil, root, optionalRoot)
+	if bb, ok := root["boundingBox"].(map[string]any); ok {
+		add(jpath{"boundingBox"}, bb, optionalBBox)
+	}
+	if l, ok := root["tileMatrices"].([]any); ok {
+		for i, t := range l {
+			if tm, ok := t.(map[string]any); ok {
+				add(jpath{"tileMatrices", i}, tm, optionalTM)
+			}
+		}
+	}
+	return out
+}
+
 func mutationsOfA(doc any, restricted bool) []mutation {
 	var ps []jpath
 	nodes(doc, nil, &ps)
 	var out []mutation
+	if !restricted {
+		out = append(out, insertions(doc)...)
+	}
 	for _, p := range ps {
 		out = append(out, mutation{Path: p, Delete: true, Name: "delete"})
 		cur := getAt(doc, p)
